@@ -11,16 +11,7 @@ from ..symtab import Sym
 
 LEVEL = 'other'
 EXPLANATION = (
-    'Static analysis (dispatch exhaustiveness + table key completeness). (R1) for each strict translator (Latex, Text: a '
-    'missing visit_ method raises NotImplementedError) every doctree element class that the tableau document builder can '
-    'emit -- the closure of `types[...]` references from `tableau.for_object` -- has a visit_ method, and a depart_ method '
-    'unless the visit_ always raises SkipDeparture/SkipNode; the html translator falls back to default visitors. (R2) every '
-    'string-table key the translators and the lexical writer look up (access, designation True/False, subscript delimiters, '
-    'whitespace, parentheses, every lexical key) is present in every table of _symdata (or the lookup is guarded by except '
-    'KeyError). (R3) the document builder covers the node kinds rules can put on a branch (sentence, access, ellipsis, flag; '
-    'designation and world sub-elements); every registered writer class is concrete and names its translator; the plain-text '
-    'template mentions sentence, world, both designation markers, access pair, tick and the closure mark conditioned on the '
-    'closure flag. Determinism and faithfulness of the rendered text for a given tableau are declined.')
+    'Static analysis (dispatch exhaustiveness + table key completeness). (R1) for each strict translator (Latex, Text: a missing visit_ method raises NotImplementedError) every doctree element class that the tableau document builder can emit -- the closure of `types[...]` references from `tableau.for_object` -- has a visit_ method, and a depart_ method unless the visit_ always raises SkipDeparture/SkipNode; the html translator falls back to default visitors. (R2) every string-table key the translators and the lexical writer look up (access, designation True/False, subscript delimiters, whitespace, parentheses, every lexical key) is present in every table of _symdata (or the lookup is guarded by except KeyError). (R3) the document builder covers the node kinds rules can put on a branch (sentence, access, ellipsis, flag; designation and world sub-elements); every registered writer class is concrete and names its translator; the plain-text template mentions sentence, world, both designation markers, access pair, tick and the closure mark conditioned on the closure flag. Determinism and faithfulness of the rendered text for a given tableau are declined. (R4) ownership: jinja template handles are not stored or memoised.')
 TRUSTED = ['CPython ast', 'sa.minieval (symbol tables)']
 ASSUMPTIONS = ['element classes are instantiated only through `types[cls]` in nodes.py builders']
 
